@@ -228,6 +228,11 @@ def oracle(rng, thorough, deep=False, hints=None):
                           seed=int(rng.integers(0, 10000)),
                           history=[["hp", "hp_ft", "pipe_hp", "backend_hp", "lp", "lp_ft"][int(k)]
                                    for k in rng.integers(0, 6, size=int(rng.integers(1, 4)))] if it % 2 else []))
+    # always: a high-pass call with the same (shape, cutoff, order) right before the low-pass under test
+    for hist, entry in ((["hp"], "utils"), (["pipe_hp"], "pipe"), (["hp_ft"], "utils_ft"), (["backend_hp"], "backend"),
+                        (["hp", "lp", "hp", "hp"], "utils"), (["hp"], "pipe")):
+        cases.append(dict(shape=[7, 8, 6], cutoff=float(rng.choice([0.2, 0.35])), order=2, entry=entry,
+                          seed=int(rng.integers(0, 10000)), history=hist))
     viols, stats = [], {"by_entry": {}, "samples": [{"oracle_case": c} for c in cases[:2]]}
     for c in cases:
         stats["by_entry"][c["entry"]] = stats["by_entry"].get(c["entry"], 0) + 1
